@@ -324,14 +324,10 @@ void runC07() {
           dispenso::ForceQueuingTag());
       // an idle pool must pick this up as well; bounded by the watchdog (this is C07 itself for the
       // single-task path, which its own cases judge)
-      double t0 = vrt::nowSeconds();
-      while (!done.load(std::memory_order_relaxed) && vrt::nowSeconds() - t0 < 30.0) {
-        if (!allAsleep(workers)) vrt::progress();
-        vrt::sleepUs(50);
-      }
+      waitFlagOrStranded(done, *pool, workers);
       if (!done.load(std::memory_order_relaxed)) {
         ok = false;
-        why = "shuffle task never started";
+        why = "shuffle task not started (that path is judged by its own single-task cases)";
         // let the destructor run it
         break;
       }
